@@ -104,6 +104,18 @@ pub fn fold_rejects(run: &mut Run, prop: &str) {
 // ------------------------------------------------------------------------------------------------
 // C15
 
+thread_local! {
+    static KNOB: std::cell::Cell<u32> = std::cell::Cell::new(0);
+}
+/// A value the driver changes between evaluations of one generated expansion site (the caller variables next to every
+/// `timeline!` / `animator!` case are derived from it).
+pub fn knob() -> u32 {
+    KNOB.with(|k| k.get())
+}
+pub fn set_knob(v: u32) {
+    KNOB.with(|k| k.set(v))
+}
+
 pub struct TlCase<S: Shape> {
     pub idx: u64,
     pub sentence: &'static str,
@@ -137,6 +149,7 @@ pub fn run_c15<S: Shape>(run: &mut Run, cases: &[TlCase<S>]) {
         }
         let acc = &mut run.acc;
         let case = |what: &str, t: f32| case_json(1, c.idx, vec![("sentence", J::s(c.sentence)), ("builder_twin", J::s(c.twin)), ("t", J::F(t as f64)), ("clause", J::s(what))]);
+        set_knob((c.idx % 3) as u32);
         let r = catch(|| ((c.mac)(), (c.bld)()));
         let (m, b) = match r {
             Ok(x) => x,
@@ -245,6 +258,8 @@ pub struct AnCase<S: Shape> {
 const C16_ALPHABET: [Op; 8] = [Op::Adv(0.0), Op::Adv(0.125), Op::Adv(1.0), Op::Set(0), Op::Set(1), Op::Set(2), Op::Set(3), Op::Set(4)];
 
 fn drive<S: Shape>(c: &AnCase<S>, ops: &[Op], acc: &mut Acc, stream: u64, hidx: u64) -> bool {
+    // the same expansion site is evaluated once per history, with caller variables that differ between histories
+    set_knob((hidx % 4) as u32);
     let (mut m, mut b) = ((c.mac)(), (c.bld)());
     let case = |k: usize, what: &str| {
         case_json(stream, c.idx, vec![("block", J::s(c.block)), ("builder_twin", J::s(c.twin)), ("history_index", J::U(hidx)), ("ops", crate::checks::anim::ops_json(ops)), ("failing_op_index", J::U(k as u64)), ("clause", J::s(what))])
